@@ -35,32 +35,35 @@ const (
 // or the length doesn't match return false.
 func consumeSingleTURNFrame(b []byte) (int, error) {
 	// Too short to determine if ChannelData or STUN
-	if len(b) < 9 {
+	if len(b) < channelDataHeaderSize {
 		return 0, errIncompleteTURNFrame
 	}
 
-	var datagramSize uint16
+	// Sizes are computed in int: a uint16 would wrap for lengths near 0xFFFF.
+	var datagramSize int
 	switch {
-	case stun.IsMessage(b):
-		datagramSize = binary.BigEndian.Uint16(b[2:4]) + stunHeaderSize
+	// The channel number range (first byte 0x40-0x7F) cannot start a STUN message (first two bits 00),
+	// so it is tested first: a ChannelData payload may contain the STUN magic cookie.
 	case ChannelNumber(binary.BigEndian.Uint16(b[0:2])).Valid():
-		datagramSize = binary.BigEndian.Uint16(b[channelDataNumberSize:channelDataHeaderSize])
-		if paddingOverflow := (datagramSize + channelDataPadding) % channelDataPadding; paddingOverflow != 0 {
-			datagramSize = (datagramSize + channelDataPadding) - paddingOverflow
+		datagramSize = int(binary.BigEndian.Uint16(b[channelDataNumberSize:channelDataHeaderSize]))
+		if paddingOverflow := datagramSize % channelDataPadding; paddingOverflow != 0 {
+			datagramSize += channelDataPadding - paddingOverflow
 		}
 
 		datagramSize += channelDataHeaderSize
+	case stun.IsMessage(b):
+		datagramSize = int(binary.BigEndian.Uint16(b[2:4])) + stunHeaderSize
 	case len(b) < stunHeaderSize:
 		return 0, errIncompleteTURNFrame
 	default:
 		return 0, errInvalidTURNFrame
 	}
 
-	if len(b) < int(datagramSize) {
+	if len(b) < datagramSize {
 		return 0, errIncompleteTURNFrame
 	}
 
-	return int(datagramSize), nil
+	return datagramSize, nil
 }
 
 // ReadFrom implements ReadFrom from net.PacketConn.
